@@ -147,7 +147,7 @@ def general_reference(lines):
 
 class C11(Property):
     id = "C11"
-    lean_module = "RosuModel.Props.C11Full"    # imports Props/C11General.lean → Props/C11.lean; all three are in namespace Rosu.C11
+    lean_module = "RosuModel.Props.C11Full"    # imports Props/C11Tables.lean (→ Props/C11General.lean → Props/C11.lean) and Props/C11Ieee.lean; all in namespace Rosu.C11
     theorem_modules = ['RosuModel.Props.C11Tables', 'RosuModel.Props.C11Ieee']   # files whose top-level theorems are all audited
     namespace = "Rosu.C11"
     design_ref = "5.11"
@@ -182,15 +182,25 @@ class C11(Property):
                          "events_eq_cases", "event_type_values", "events_invalid_noop", "events_frame", "events_break_record",
                          "metadata_field_step", "metadata_last_valid_wins",
                          "generalTable_frame", "general_frame", "general_invalid_value_noop", "general_field_step",
-                         "general_last_valid_wins"]
+                         "general_last_valid_wins",
+                         # Props/C11Ieee.lean: the order hypotheses discharged for the driver's Float / Float32
+                         "clamp_within_ieee", "max_not_before_ieee", "clamp_within_float", "clamp_within_float32", "max_not_before_float",
+                         "max_not_before_float32", "slider_multiplier_within_float", "slider_tick_rate_within_float",
+                         "slider_multiplier_between_float", "slider_tick_rate_between_float", "break_never_negative_float"]
     partial_theorems = {
-        "clamp_within / max_not_before": "proved under two order facts about `<` (irreflexive, asymmetric) taken as hypotheses; they hold for IEEE `<` "
-                                        "but Lean's Float is opaque to the kernel, so for the float code they are exercised by the correspondence, not proved",
+        "clamp_within / max_not_before": "the generic forms take two order facts about `<` (irreflexive, asymmetric) as hypotheses. For the driver's Float / Float32 these are now theorems "
+                                        "(Props/C11Ieee.lean): in Lean 4.33 Float is a structure over the logical model Float.Model and `<` reduces in the kernel; Lemmas/FloatModelCompare.lean "
+                                        "(class FMO.IeeeOrd, instances for Float and Float32, FMO.lt_irrefl / FMO.lt_asymm) discharges both, giving clamp_within_ieee / max_not_before_ieee and "
+                                        "clamp_within_float(32) / max_not_before_float(32) with no order hypothesis. The two [Difficulty] ranges are evaluated on the actual literals (`decide +kernel`): "
+                                        "slider_multiplier_within_float / slider_tick_rate_within_float (never below 0.4 / 0.5, never above 3.6 / 8, for every x incl. NaN) and, for the value of an accepted "
+                                        "record (floatParse never returns NaN), slider_multiplier_between_float / slider_tick_rate_between_float in the ordinary sense lo <= y <= hi; "
+                                        "break_never_negative_float: start <= max(start, end) and the stored end is not NaN, for parsed IEEE doubles. These are statements about Lean's logical float "
+                                        "model; the compiled operations are compared with Rust by the codec differential of this check (fop64 / fop32 cmp, minmax)",
     }
     level_text = ("Lean 4 theorems over the model of the record-section parsers (Editor, Metadata, Difficulty, Events, Colours; KeyValue): value = trimmed "
                   "text after the first colon (any further colons kept); rejected record ⇒ state unchanged, unknown key ⇒ accepted no-op; last valid "
-                  "occurrence wins (generic fold lemma); slider multiplier / tick rate stored as clamp(v,0.4,3.6) / clamp(v,0.5,8) with the clamp bound fact; "
-                  "AR = OD until an ApproachRate record is accepted (invariant over every line sequence); background/video/sprite precedence; break end = max(start,end), "
+                  "occurrence wins (generic fold lemma); slider multiplier / tick rate stored as clamp(v,0.4,3.6) / clamp(v,0.5,8) with the clamp bound fact (for the driver's IEEE doubles with no order hypothesis and in the ordinary sense: slider_multiplier_between_float, slider_tick_rate_between_float); "
+                  "AR = OD until an ApproachRate record is accepted (invariant over every line sequence); background/video/sprite precedence; break end = max(start,end) (IEEE doubles: break_never_negative_float), "
                   "breaks only appended; colour alpha ignored, one custom colour per name, Combo* appends. Model tied to the code by the key × value-class matrix "
                   "(all keys × value classes × line forms, pairs, random sequences) compared field-by-field (floats by bits); an independent table-driven Rust reference "
                   "is evaluated against the real parsers for the failing-input search. [General] (Props/C11General.lean): rejected ⇒ unchanged, unknown key ⇒ accepted no-op; "
@@ -214,10 +224,12 @@ class C11(Property):
         "Lean 4.33.0 kernel; axioms ⊆ {propext, Classical.choice, Quot.sound} per #print axioms",
         "hand-written model Model/{Text,Num,NumParse,ParseNum,KeyValue,Sections,General}.lean tied to /repo by this check's differential run",
         "Rust std: str::{split,trim,find,replace,trim_matches}, i32/u8/f32/f64 FromStr (model codec validated by the codec differential in this run)",
+        "the *_float / *_float32 theorems are about Lean 4.33's logical float model Float.Model (Float is a structure over it, not opaque); that the compiled @[extern] C operations agree with that model is part of "
+        "Lean's own trusted code base and is compared with Rust bit for bit by the codec differential of this run (fop64 / fop32 <add|sub|mul|div|sqrt|abs|neg|cmp|minmax>, the casts)",
     ]
     assumptions = [
         "number parsing/printing of the model is generic (Scalar); the IEEE instance is validated against Rust on the codec cases of this run",
-        "float clamp/max facts are proved under explicit order laws (hold in exact arithmetic; for IEEE they are exercised, not proved)",
+        "float clamp/max facts: the generic theorems take explicit order laws; for the driver's Float / Float32 the laws are theorems (Props/C11Ieee.lean via Lemmas/FloatModelCompare.lean), so nothing is assumed there",
     ]
     nontrivial_rule = ("record lists built from every recognised key × value classes (valid, boundary, overflow, NaN/inf, empty, padded, "
                        "comment-suffixed, extra colons), unknown keys, duplicates; non-trivial = at least one line accepted and one field changed from default")
